@@ -15,3 +15,10 @@ check("C06", "exploration",
       "sides of the requested minute incl. equal-minute and day/month/year roll-over. Held on all of them.",
       _D + "; an 'H o'clock' result may leave the minute unspecified", 
       "API call/return monitor + exact hh:mm oracle and calendar model, exhaustive minute x notation enumeration", "DESIGN.md 3/C06")
+
+check("C04", "exploration",
+      "Held on every observed execution: all weekdays and all days of month 1-31 against every date of the 28-year cycle "
+      "(thorough), all 366 day+month pairs around each anniversary and all month/leap boundaries, all part-of-day forms at "
+      "their own start hour +-1 minute; a failure is attributed to the clause it breaks (before reference, written field "
+      "not preserved, not nearest, today-convention).",
+      _D, "API call/return monitor + calendar reference model (nearest future match) over full-cycle sweeps", "DESIGN.md 3/C04")
